@@ -11,6 +11,7 @@ import (
 	"github.com/hashicorp/consul/internal/verifmc/c09"
 	"github.com/hashicorp/consul/internal/verifmc/c12"
 	"github.com/hashicorp/consul/internal/verifmc/c16"
+	"github.com/hashicorp/consul/internal/verifmc/c17"
 	"github.com/hashicorp/consul/internal/verifmc/c19"
 	"github.com/hashicorp/consul/internal/verifmc/ev"
 )
@@ -25,6 +26,7 @@ var checks = map[string]checkDef{
 	"C09": {"exploration", c09.Run},
 	"C12": {"exploration", c12.Run},
 	"C16": {"fault_enumeration", c16.Run},
+	"C17": {"model_checking", c17.Run},
 	"C19": {"exploration", c19.Run},
 }
 
